@@ -249,7 +249,7 @@ def check_readers_validate(ck):
 
 
 def check(ck):
-    check_write_order(ck)
-    check_pointer_trust(ck)
-    check_recovery(ck)
-    check_readers_validate(ck)
+    ck.run(check_write_order, ck)
+    ck.run(check_pointer_trust, ck)
+    ck.run(check_recovery, ck)
+    ck.run(check_readers_validate, ck)
